@@ -48,6 +48,9 @@ FEATURE_MODELS = [
     # 40-byte payloads (non-pooled messages) and dynamic memory over several arenas
     text(3, [4, 4, 4], [4, 2, 4], P=5, K=9, M=2, H=8),
     text(2, [2, 2], [2, 4, 1], P=0, K=8, M=2, H=9),
+    # ties between 40-byte payloads that differ only beyond the first 32 bytes
+    text(2, [9, 9], [9, 2, 9], P=5, K=12, H=5),
+    text(3, [9, 1, 9], [2, 9, 9], P=0, K=5, M=1, H=5),
     # RootsimStop from a handler
     text(2, [2, 2], [2, 2, 2], P=4, K=0, H=9, S=3),
     text(3, [7, 0, 0], [1, 2, 7], P=4, K=0, H=7, S=5),
